@@ -267,15 +267,55 @@ def cachedInfo (cfg : Cfg) (init : Init) (ops : List TOp) : Json :=
        ("warm", ofNat (live.filter (fun o => match o.cache with | some (_ :: _) => true | _ => false)).length),
        ("good_end", Json.bool ((live.filter (·.fresh)).all (fun o => invB o.t && cohB cfg o.t o.cache)))]
 
+/-- the tables alive after the operations -/
+def finalTs (cfg : Cfg) : List (Option Table) → List TOp → List (Option Table)
+  | ts, [] => ts
+  | ts, op :: rest => finalTs cfg (step cfg ts op).1 rest
+
+def exceptJson {α} (f : α → Json) (r : Except Err α) : Json :=
+  match r with
+  | .ok a => obj [("ok", f a)]
+  | .error e => obj [("err", Json.str (errName e))]
+
+/-- `len(t)`, `t.to_dicts()` and, per column, what `t[c]` shows -/
+def viewObsJson (t : Table) : Json :=
+  obj [("len", exceptJson ofNat t.len),
+       ("dicts", exceptJson (ofList (ofList (fun (p : Nat × Cell) => Json.arr #[ofNat p.1, cellToJson p.2]))) t.toDicts),
+       ("cols", ofList (fun c => Json.arr #[ofNat c, exceptJson (fun (o : ColObs) =>
+          obj [("kind", ofNat o.kind), ("len", ofNat o.len), ("items", exceptJson (ofList cellToJson) o.items),
+               ("first", exceptJson cellToJson o.first), ("last", exceptJson cellToJson o.last)]) (t.colObs c)]) t.columns)]
+
+def sortResJson (r : Except Err (List Cell)) : Json :=
+  match r with
+  | .ok l => obj [("ok", ofList cellToJson l)]
+  | .error e => obj [("err", Json.str (errName e))]
+
+def sortNatResJson (r : Except Err (List Nat)) : Json :=
+  match r with
+  | .ok l => obj [("ok", ofList ofNat l)]
+  | .error e => obj [("err", Json.str (errName e))]
+
+/-- request `{"sort": [cells]}`: `sorted(cells)` by the comparison sort `pySortedE` and by the specification-level `pySorted`,
+and `sorted(range(n), key=cells.__getitem__)` by `pySortedByE` / `pySortedBy` -/
+def handleSort (j : Json) : Except String Json := do
+  let vs ← cells j
+  let idx := List.range vs.length
+  pure (obj [("sortE", sortResJson (pySortedE vs)), ("spec", sortResJson (pySorted vs)),
+             ("sortByE", sortNatResJson (pySortedByE (cellAt vs) idx)), ("specBy", sortNatResJson (pySortedBy (cellAt vs) idx))])
+
 /-- request `{"cfg":{…}, "init":…, "ops":[…]}` → `{"model":[obs…], "spec":[…]}` (first entry of
 `model`: the initial table; `spec` has one entry per operation) -/
 def handle (req : Json) : Except String Json := do
+  match req.getObjVal? "sort" with
+  | .ok j => handleSort j
+  | .error _ =>
   let cfg ← parseCfg (fieldD req "cfg" (Json.mkObj []))
   let init ← parseInit (← field req "init")
   let ops ← (← arr (← field req "ops")).mapM parseTOp
   let res := runWithSpec cfg [some init.table] ops
   pure (obj [("model", ofList obsToJson (observe init.table :: res.map (·.1))),
              ("spec", Json.arr (res.map (·.2)).toArray),
+             ("views", ofList (fun (o : Option Table) => match o with | some t => viewObsJson t | Option.none => Json.null) (finalTs cfg [some init.table] ops)),
              ("cached", cachedInfo cfg init ops),
              ("linear", linearInfo cfg init (ops.filter (fun o => match o with | .peek _ => false | _ => true)))])
 
